@@ -24,21 +24,29 @@ def list_scenarios(exe):
 
 
 def _explore(arg):
-    exe, s, bound, budget, dpoints, horizon = arg
-    cmd = [exe, "--explore", str(s), "--bound", str(bound), "--dpoints", str(dpoints), "--horizon", str(horizon)]
+    """Explore a chunk of scenarios in one harness process (one JSON line per scenario)."""
+    exe, chunk, bound, budget, dpoints, horizon = arg
+    out = []
+    cmd = [exe, "--scenarios", ",".join(str(x) for x in chunk), "--bound", str(bound), "--dpoints", str(dpoints), "--horizon", str(horizon)]
     if budget:
         cmd += ["--budget", str(budget)]
     try:
-        r = subprocess.run(cmd, stdout=subprocess.PIPE, stderr=subprocess.PIPE, text=True, timeout=(budget or 600) * 3 + 600)
+        r = subprocess.run(cmd, stdout=subprocess.PIPE, stderr=subprocess.PIPE, text=True, timeout=((budget or 600) * 3 + 600) * len(chunk))
+        lines = [l for l in r.stdout.splitlines() if l.startswith("{")]
+        seen = set()
+        for l in lines:
+            try:
+                d = json.loads(l)
+                out.append(d)
+                seen.add(d["scenario"])
+            except Exception as e:
+                out.append({"scenario": None, "error": "bad json %s: %s" % (e, l[:300])})
+        for sidx in chunk:
+            if sidx not in seen:
+                out.append({"scenario": sidx, "error": "no result (rc=%s) stderr=%s" % (r.returncode, r.stderr[-300:])})
     except subprocess.TimeoutExpired:
-        return {"scenario": s, "error": "explorer timeout"}
-    lines = [l for l in r.stdout.splitlines() if l.startswith("{")]
-    if not lines:
-        return {"scenario": s, "error": "no output rc=%s stderr=%s" % (r.returncode, r.stderr[-500:])}
-    try:
-        return json.loads(lines[-1])
-    except Exception as e:
-        return {"scenario": s, "error": "bad json %s: %s" % (e, lines[-1][:300])}
+        out.append({"scenario": chunk[0], "error": "explorer timeout"})
+    return out
 
 
 def replay_schedule(exe, scenario, schedule, bound, dpoints=1, horizon=20000, conflicts=()):
@@ -52,13 +60,16 @@ def replay_schedule(exe, scenario, schedule, bound, dpoints=1, horizon=20000, co
     return r.returncode != 0, obs
 
 
-def explore_all(rep, harness, scenarios, bound, budget_per_scenario=None, dpoints=1, deadline=None, horizon=20000, classify=None, jobs=None):
+def explore_all(rep, harness, scenarios, bound, budget_per_scenario=None, dpoints=1, deadline=None, horizon=20000, classify=None, jobs=None, chunk=64):
     """scenarios: list of scenario indices. Adds coverage to rep; records violations (replayed twice first)."""
     exe = build_harness(harness)
     descs = dict(list_scenarios(exe))
-    args = [(exe, s, bound, budget_per_scenario, dpoints, horizon) for s in scenarios]
+    scenarios = list(scenarios)
+    csz = max(1, min(chunk, (len(scenarios) + 4 * NCPU - 1) // (4 * NCPU)))
+    args = [(exe, scenarios[i:i + csz], bound, budget_per_scenario, dpoints, horizon) for i in range(0, len(scenarios), csz)]
     nviol = 0
-    for res in pmap_unordered(_explore, args, jobs=jobs):
+    results = (res for group in pmap_unordered(_explore, args, jobs=jobs) for res in group)
+    for res in results:
         if "error" in res:
             rep.error("%s scenario %s: %s" % (harness, res.get("scenario"), res["error"]))
             continue
